@@ -15,7 +15,7 @@ from .model import Site, config_space, find_sites, valuations
 from .terms import KINDS
 
 VERIF = os.path.dirname(os.path.dirname(os.path.abspath(__file__)))
-EVIDENCE_DIR = os.path.join(VERIF, "evidence")
+EVIDENCE_DIR = os.environ.get("RXSA_EVIDENCE_DIR") or os.path.join(VERIF, "evidence")
 KNOWN_FINDINGS = os.path.join(VERIF, "known_findings.json")
 
 
@@ -192,6 +192,14 @@ def run_check(prop_id: str, rules, tier: str, level: str, explanation: str, trus
         tb = traceback.format_exc()
         error = "ANALYSIS-ERROR property=%s internal error: %s\n%s" % (prop_id, e, tb)
 
+    selftest = None
+    if tier == "thorough" and error is None and not os.environ.get("RXSA_NO_SELFTEST"):
+        try:
+            from .selftest import run_selftest
+            selftest = run_selftest(prop_id, repo=ctx.program.repo)
+        except Exception as e:
+            selftest = {"variants": 0, "error": repr(e)}
+
     known = load_known()
     known_keys = {(k["property"], k["rule"], k["construct"]): k for k in known.get("known", [])}
     violations = []
@@ -243,6 +251,7 @@ def run_check(prop_id: str, rules, tier: str, level: str, explanation: str, trus
             "sites": len(ctx.sites) if ctx else 0,
             "known_findings_reported": [f.key() for f, _ in known_hits],
             "analysis_error": error,
+            "selftest": selftest,
         },
         "assumptions": assumptions,
         "wall_s": round(time.time() - t0, 3),
@@ -262,6 +271,11 @@ def run_check(prop_id: str, rules, tier: str, level: str, explanation: str, trus
             print("           note: %s" % n)
     for a in assumptions:
         print("  assumption: %s" % a)
+    if selftest is not None:
+        print("  self-test: %d in-memory variant(s) of today's source: %s" % (selftest.get("variants", 0), selftest.get("summary", selftest.get("error"))))
+        for res in selftest.get("results", []):
+            if res["status"] in ("MISSED", "FALSE-ALARM", "cannot-analyse"):
+                print("  SELFTEST-%s %s (%s) fired=%s %s" % (res["status"], res["id"], res.get("note") or res.get("rel"), res.get("fired"), res.get("error") or ""))
     if error:
         print(error)
         return 2
